@@ -5,6 +5,7 @@
 //   XOFF size l1 prime mi wi -> the bytes EratSmall::crossOff changes for one sieving prime, and its stored state
 //   EBIG log2 nseg (prime mi wi)* -> the bytes EratBig::crossOff changes per segment and the bucket lists afterwards
 //   EMED size nseg (prime mi wi)* -> the same for EratMedium (64 lists, one per wheel index)
+//   TINY stop -> SievingPrimes::tinySieve_ of a SievingPrimes object made for an Erat with that stop
 #include <stdint.h>
 #include <cstddef>
 #include <string>
@@ -19,6 +20,7 @@
 #include <primesieve/iterator.hpp>
 #include <primesieve/pmath.hpp>
 #include <primesieve/PreSieve.hpp>
+#include <primesieve/SievingPrimes.hpp>
 #undef private
 #undef protected
 #include "common.hpp"
@@ -167,6 +169,13 @@ int main()
         for (std::size_t j = 0; j < es.size(); j++) out += (j ? ";" : "") + std::to_string(es[j][0]) + "," + std::to_string(es[j][1]) + "," + std::to_string(es[j][2]);
       }
       std::cout << out << std::endl;
+    } else if (t.size() >= 2 && t[0] == "TINY") {
+      // TINY stop: the tinySieve_ table of the SievingPrimes object belonging to an Erat with the given stop:
+      // "built=<0|1> size=<entries> count=<odd i >= 3 with tinySieve_[i]> sum=<their sum> last=<the largest> | the first 40"
+      Erat e(7, u64(t[1])); MemoryPool pool; SievingPrimes sp(&e, 16, pool);
+      uint64_t cnt = 0, sum = 0, last = 0; std::string first;
+      for (std::size_t i = 3; i < sp.tinySieve_.size(); i += 2) if (sp.tinySieve_[i]) { cnt++; sum += i; last = i; if (cnt <= 40) first += " " + std::to_string(i); }
+      std::cout << "built=" << (sp.tinySieve_.size() ? 1 : 0) << " size=" << sp.tinySieve_.size() << " count=" << cnt << " sum=" << sum << " last=" << last << " |" << first << std::endl;
     } else if (t.size() >= 3 && t[0] == "NBUF") {
       // forward buffer after the first generate_next_primes() of iterator(start, hint):
       // "<buffer size (Vector::size)> <size_> <chunk stop> <primeCountUpper(start, stop)>"
